@@ -3,9 +3,10 @@
 import Iodata.Drv.Conv
 import Iodata.Drv.Helpers
 import Iodata.Drv.Select
+import Iodata.Drv.Inputs
 
 def handlers : List (List String → Option String) :=
-  [Iodata.Drv.Conv.handle, Iodata.Drv.Helpers.handle, Iodata.Drv.Select.handle]
+  [Iodata.Drv.Conv.handle, Iodata.Drv.Helpers.handle, Iodata.Drv.Select.handle, Iodata.Drv.Inputs.handle]
 
 def respond (line : String) : String :=
   let ws := (line.splitOn " ").filter (· ≠ "")
